@@ -196,6 +196,14 @@ def shard_collections(args):
             _k, x = draw(gen.message(state, ro['ro_id'], kinds=[k for k in build.ALL_KINDS if k != 'roDelete'],
                                      faults='heavy', rich=True, mid=mid, degenerate=True))
             docs.append(x)
+        if draw(st.integers(0, 2)) == 0:
+            # a roDelete in the middle (or first): everything after it is refused - and the
+            # non-strict merge still runs to the end
+            k = draw(st.integers(1, len(docs) - 1))
+            lo = int(ET.fromstring(docs[k - 1]).findtext('messageID')) if k > 1 else ro['mid']
+            hi = int(ET.fromstring(docs[k]).findtext('messageID'))
+            if hi - lo >= 2:
+                docs.insert(k, build.tostring(build.envelope(build.ro_delete(ro['ro_id']), lo + 1)))
         if draw(st.integers(0, 5)) == 0:
             # one running order whose ID is blank everywhere
             out = []
